@@ -1026,14 +1026,15 @@ theorem protoGet_not_char (tbl : Bytes → Option Native) (kv : Val) (ch : Optio
   all_goals cases h
 
 theorem getMember_char (h : Heap) (v kv : Val) (ch : Option Bytes) (x : F64)
-    (hg : getMember h v kv = .ok (.char ch x)) : (∃ s sp, v = .str s sp) ∧ kv = .num x := by
+    (hg : getMember h v kv = .ok (.char ch x)) :
+    (∃ s sp, v = .str s sp) ∧ ∃ y, kv = .num y ∧ x = F64.ofInt y.toGoInt := by
   cases v with
   | str s sp =>
     refine ⟨⟨s, sp, rfl⟩, ?_⟩
     cases kv with
     | num y =>
       simp only [getMember] at hg
-      split at hg <;> (simp only [Except.ok.injEq, Member.char.injEq] at hg; rw [hg.2])
+      split at hg <;> (simp only [Except.ok.injEq, Member.char.injEq] at hg; exact ⟨y, rfl, hg.2.symm⟩)
     | _ => simp only [getMember] at hg; exact absurd hg (protoGet_not_char _ _ _ _)
   | arr a =>
     cases kv with
@@ -1064,7 +1065,9 @@ theorem memberRead_cases (pos : Nat) (left : CellId) (kv : Val) (s : St) (q2 : C
     (getMember s.heap (s.heap.get left) kv = .ok (.cell q2) ∧
       (∀ f b sp, s.heap.get q2 ≠ .native f b sp) ∧ s1 = s) ∨
     (∃ v, q2 = s.heap.cells.size ∧ s1 = { s with heap := (s.heap.alloc v).2 } ∧
-      ((v = .nil (some ⟨left, keyOf kv⟩) ∧ MissingRaw s.heap (s.heap.get left) kv) ∨
+      ((∃ k, v = .nil (some ⟨left, k⟩) ∧
+          (k = keyOf kv ∨ ∃ s0 sp0, s.heap.get left = .str s0 sp0) ∧
+          MissingRaw s.heap (s.heap.get left) kv) ∨
        (∃ f b sp, v = .native f b (some sp)) ∨ (∃ ch sp, v = .str ch (some sp)))) := by
   unfold memberRead at h
   simp only [bind, EM.bind, readCell, getHeap] at h
@@ -1080,7 +1083,7 @@ theorem memberRead_cases (pos : Nat) (left : CellId) (kv : Val) (s : St) (q2 : C
     cases mem with
     | missing =>
       obtain ⟨e1, e2⟩ := fresh _ h
-      refine .inr ⟨_, e1, e2, .inl ⟨?_, getMember_missing_raw _ _ _ hk hg⟩⟩
+      refine .inr ⟨_, e1, e2, .inl ⟨keyOf kv, ?_, .inl rfl, getMember_missing_raw _ _ _ hk hg⟩⟩
       rcases hk with ⟨s0, rfl⟩ | ⟨x, rfl⟩ <;> rfl
     | method f =>
       obtain ⟨e1, e2⟩ := fresh _ h
@@ -1089,12 +1092,10 @@ theorem memberRead_cases (pos : Nat) (left : CellId) (kv : Val) (s : St) (q2 : C
       cases ch with
       | none =>
         obtain ⟨e1, e2⟩ := fresh _ h
-        refine .inr ⟨_, e1, e2, .inl ⟨?_, ?_⟩⟩
-        · obtain ⟨_, rfl⟩ := getMember_char _ _ _ _ _ hg
-          rfl
-        · obtain ⟨⟨s0, sp0, e⟩, _⟩ := getMember_char _ _ _ _ _ hg
-          rw [e]
-          exact ⟨(fun o e' => by cases e'), (fun a e' => by cases e')⟩
+        obtain ⟨⟨s0, sp0, e⟩, _⟩ := getMember_char _ _ _ _ _ hg
+        refine .inr ⟨_, e1, e2, .inl ⟨.num x, rfl, .inr ⟨s0, sp0, e⟩, ?_⟩⟩
+        rw [e]
+        exact ⟨(fun o e' => by cases e'), (fun a e' => by cases e')⟩
       | some c0 =>
         obtain ⟨e1, e2⟩ := fresh _ h
         exact .inr ⟨_, e1, e2, .inr (.inr ⟨_, _, rfl⟩)⟩
@@ -1324,9 +1325,10 @@ inductive PathAt (h : Heap) (fs : List Frame) (rr : Option CellId) (x : Option C
       (hk : litKey t = some kv) (hg : getMember h (h.get q) kv = .ok (.cell q2))
       (hq2 : CellFine h q2) (hnn : ∀ f b sp, h.get q2 ≠ .native f b sp) :
       PathAt h fs rr x (.binary l (.lit t) op) q2
-  | fresh {l : Expr} {t op : Token} {q : CellId} {kv : Val} {q2 : CellId}
+  | fresh {l : Expr} {t op : Token} {q : CellId} {kv : Val} {q2 : CellId} {k : Key}
       (hp : PathAt h fs rr x l q) (hx : x ≠ some q) (hop : op.tag = .dot ∨ op.tag = .lsquare)
-      (hk : litKey t = some kv) (hv : h.get q2 = .nil (some ⟨q, keyOf kv⟩))
+      (hk : litKey t = some kv) (hv : h.get q2 = .nil (some ⟨q, k⟩))
+      (hkey : k = keyOf kv ∨ ∃ s0 sp0, h.get q = .str s0 sp0)
       (hm : MissingIn h q kv) : PathAt h fs rr x (.binary l (.lit t) op) q2
   | other {l : Expr} {t op : Token} {q : CellId} {kv : Val} {q2 : CellId}
       (hp : PathAt h fs rr x l q) (hx : x ≠ some q) (hop : op.tag = .dot ∨ op.tag = .lsquare)
@@ -1340,7 +1342,7 @@ theorem PathAt.lt {h : Heap} {fs : List Frame} {rr x : Option CellId} {l : Expr}
   | dollar _ _ hq => exact hq.1
   | var _ _ hq => exact hq.1
   | found _ _ _ _ _ hq2 _ => exact hq2.1
-  | fresh _ _ _ _ hv _ => exact Heap.lt_of_get_ne_unknown _ _ (by rw [hv]; simp)
+  | fresh _ _ _ _ hv _ _ => exact Heap.lt_of_get_ne_unknown _ _ (by rw [hv]; simp)
   | other _ _ _ _ hv =>
     apply Heap.lt_of_get_ne_unknown
     rcases hv with ⟨f, b, sp, e⟩ | ⟨ch, sp, e⟩ <;> rw [e] <;> simp
@@ -1379,9 +1381,10 @@ theorem PathAt.lift {h : Heap} {fs : List Frame} {rr x : Option CellId} {l : Exp
     refine .found ih hx hop hk ?_ (hq2.lift p) (by rw [p.get _ hq2.1]; exact hnn)
     rw [p.get _ hq, getMember_preserved p _ _ (getMember_cell_cont _ _ _ _ hg).2]
     exact hg
-  | fresh hp hx hop hk hv hm ih =>
+  | fresh hp hx hop hk hv hkey hm ih =>
     have hq2 : _ < h.cells.size := Heap.lt_of_get_ne_unknown _ _ (by rw [hv]; simp)
-    exact .fresh ih hx hop hk (by rw [p.get _ hq2]; exact hv) (hm.lift hp.lt p)
+    exact .fresh ih hx hop hk (by rw [p.get _ hq2]; exact hv) (by rw [p.get _ hp.lt]; exact hkey)
+      (hm.lift hp.lt p)
   | other hp hx hop hk hv ih =>
     rename_i l0 t0 op0 q0 kv0 q20
     have hq2 : q20 < h.cells.size := by
@@ -1550,18 +1553,21 @@ theorem evalPath_trace (prog : Program) (x : Option CellId) : ∀ (n : Nat) (l :
         · rw [if_pos hu, newCell_eq] at hev
           simp only [Res.ok.injEq] at hev
           obtain ⟨rfl, rfl⟩ := hev
-          refine freshCase _ rfl (fun pC => .fresh pC hxq hop hkv (Heap.get_alloc_new_readOnly _ _) ?_)
+          refine freshCase _ rfl (fun pC => .fresh pC hxq hop hkv (Heap.get_alloc_new_readOnly _ _)
+            (.inl rfl) ?_)
           have hu2 : ((sA.heap.alloc kv).2.alloc (.nil (some ⟨q0, keyOf kv⟩))).2.get q0 = .unknown := by
             rw [Heap.get_alloc_old _ _ _ (Nat.lt_of_lt_of_le hq0 halB.cells)]; exact hu
           exact ⟨(fun o e => by rw [hu2] at e; cases e), (fun a e => by rw [hu2] at e; cases e)⟩
         · rw [if_neg hu] at hev
           rcases memberRead_cases _ _ _ _ _ _ hkval.shape hev with ⟨hg, hnn, rfl⟩ | ⟨v, rfl, rfl, hv⟩
           · exact ⟨relB, okB, .found pB hxq hop hkv hg (okB.found hg) hnn, hfuel⟩
-          · rcases hv with ⟨rfl, hmr⟩ | ⟨f, b, sp, rfl⟩ | ⟨ch, sp, rfl⟩
-            · refine freshCase _ rfl (fun pC => .fresh pC hxq hop hkv (Heap.get_alloc_new_readOnly _ _) ?_)
+          · rcases hv with ⟨k0, rfl, hk0, hmr⟩ | ⟨f, b, sp, rfl⟩ | ⟨ch, sp, rfl⟩
+            · have hq0B' : q0 < (sA.heap.alloc kv).2.cells.size := Nat.lt_of_lt_of_le hq0 halB.cells
+              refine freshCase _ rfl (fun pC => .fresh pC hxq hop hkv (Heap.get_alloc_new_readOnly _ _)
+                (by rw [Heap.get_alloc_old _ _ _ hq0B']; exact hk0) ?_)
               have hq0B : q0 < (sA.heap.alloc kv).2.cells.size := Nat.lt_of_lt_of_le hq0 halB.cells
               have hcont := okB.1 q0 hq0B
-              have hal2 := HeapPreserved.alloc (sA.heap.alloc kv).2 (.nil (some ⟨q0, keyOf kv⟩))
+              have hal2 := HeapPreserved.alloc (sA.heap.alloc kv).2 (.nil (some ⟨q0, k0⟩))
               have hm0 : MissingIn (sA.heap.alloc kv).2 q0 kv := by
                 constructor
                 · intro o e
@@ -1734,15 +1740,35 @@ theorem reeval (prog : Program) (H H' : Heap) (lc c : CellId) (S : CellId → Pr
     intro e
     subst e
     exact (eff.plain hq2S).symm
-  | fresh hp0 hx hop hk hv hm ih =>
-    rename_i l0 t0 op0 q0 kv q2
+  | fresh hp0 hx hop hk hv hkey hm ih =>
+    rename_i l0 t0 op0 q0 kv q2 k0
     intro hS n t hn hp hf hrr
     have hkval := litKey_isKeyVal hk
     have hS2 : S q2 := by
       rcases hS with h | h
       · exact h
       · rw [hv] at h; cases h
-    obtain ⟨hSq0, hq0lc, np, hnplt, hgnp, hnp1, hnp2⟩ := eff.link q2 hS2 q0 (keyOf kv) hv
+    obtain ⟨hSq0, hq0lc, np, hnplt, hgnp, hnp1, hnp2⟩ := eff.link q2 hS2 q0 k0 hv
+    -- a string base cannot have received a member: the stand-in key is the literal key
+    have hk0 : k0 = keyOf kv := by
+      rcases hkey with e | ⟨s0, sp0, e⟩
+      · exact e
+      · exfalso
+        have hq0lt : q0 < H.cells.size := hp0.lt
+        have hnS : ¬ S q0 := by
+          intro hs
+          obtain ⟨sp, e'⟩ := eff.spec q0 hs
+          rw [e] at e'; cases e'
+        have hq0c : q0 ≠ c := by
+          intro ec
+          rcases eff.tgt with e' | e'
+          · exact hq0lc (ec.trans e')
+          · rw [← ec] at e'; exact absurd hq0lt (Nat.not_lt.mpr e')
+        have hcont := (getMember_cell_cont _ _ _ _ hgnp).1
+        rcases eff.keep q0 hq0lt hnS hq0c with e' | ⟨e', _⟩
+        · rw [e', e] at hcont; cases hcont
+        · rw [e] at e'; cases e'
+    subst hk0
     rw [keyOf_val hkval] at hgnp
     obtain ⟨vc1, vc2⟩ := getMember_cell_cont _ _ _ _ hgnp
     have hpf := pathFuel_pos l0
@@ -1786,20 +1812,30 @@ theorem PathAt.chainW {h : Heap} {fs : List Frame} {rr x : Option CellId} {l : E
   | dollar ht hr hq => intro sp e; have := hq.2; rw [e] at this; cases this
   | var ht hl hq => intro sp e; have := hq.2; rw [e] at this; cases this
   | found hp hx hop hk hg hq2 hnn ih => intro sp e; have := hq2.2; rw [e] at this; cases this
-  | fresh hp hx hop hk hv hm ih =>
-    rename_i l0 t0 op0 q0 kv q2
+  | fresh hp hx hop hk hv hkey hm ih =>
+    rename_i l0 t0 op0 q0 kv q2 k0
     intro sp _
     have hkval := litKey_isKeyVal hk
-    have hspec : (h.get q2).spec? = some ⟨q0, keyOf kv⟩ := by rw [hv]; rfl
+    have hspec : (h.get q2).spec? = some ⟨q0, k0⟩ := by rw [hv]; rfl
     by_cases hst : ∃ sp', h.get q0 = .nil (some sp')
     · obtain ⟨sp', e'⟩ := hst
       obtain ⟨b, cs, hc⟩ := ih sp' e'
       exact ⟨b, q0 :: cs, .step hspec e' hc⟩
     · refine ⟨q0, [], .base hspec hp.lt (fun sp' e' => hst ⟨sp', e'⟩) ?_ ?_⟩
       · intro a e
+        have hk0 : k0 = keyOf kv := by
+          rcases hkey with e' | ⟨s0, sp0, e'⟩
+          · exact e'
+          · rw [e] at e'; cases e'
+        subst hk0
         obtain ⟨h1, h2⟩ := hm.2 a e
         exact ⟨h1, fun y i ey => h2 y i (keyOf_num ey)⟩
       · intro o e
+        have hk0 : k0 = keyOf kv := by
+          rcases hkey with e' | ⟨s0, sp0, e'⟩
+          · exact e'
+          · rw [e] at e'; cases e'
+        subst hk0
         rw [keyOf_val hkval]
         exact hm.1 o e
   | other hp hx hop hk hv ih =>
